@@ -48,16 +48,20 @@ End StreamMachine.
 Arguments mkCore {St Pt}. Arguments c_st {St Pt}. Arguments c_pos {St Pt}. Arguments c_rec {St Pt}.
 
 (* ------------------------------------------------------------------------------------------ *)
-(* the trace instance evaluated by the generated cases: a state is its position in the chain of the uninterrupted run;
-   transition number k consumes per[k] variates (measured INSIDE the transitions of the uninterrupted run: wrapped step /
-   tune / sweep); per-call work consumes `percall` variates -- the footprint of the code that exists says 0 for every
-   call of every sampler (nothing outside step / tune reaches numpy.random) *)
-Definition ts_step (per : list nat) (_ : unit) (_ : unit) (k : nat) (_ : stream unit) : nat * nat := (S k, nth k per 0%nat).
-Definition ts_pre (percall : nat) (_ : unit) (k : nat) (_ : stream unit) : nat * nat := (k, percall).
+(* the trace instance evaluated by the generated cases: a state is (initialised?, position in the chain of the uninterrupted
+   run); transition number k consumes per[k] variates (measured INSIDE the transitions of the uninterrupted run: wrapped
+   step / tune / sweep).  Per-call work: the FIRST call on a sampler that is not yet initialised initialises it
+   (_ensure_initialized -> initialize, which may draw: NUTS looks for its first step size with a random momentum) and
+   consumes `init` variates; on an initialised sampler per-call work consumes `percall` variates -- the footprint of the
+   code that exists says 0 for every call of every sampler (nothing outside initialize / step / tune reaches numpy.random) *)
+Definition ts_step (per : list nat) (_ : unit) (_ : unit) (s : bool * nat) (_ : stream unit) : (bool * nat) * nat :=
+  ((fst s, S (snd s)), nth (snd s) per 0%nat).
+Definition ts_pre (init percall : nat) (_ : unit) (s : bool * nat) (_ : stream unit) : (bool * nat) * nat :=
+  if fst s then (s, percall) else ((true, snd s), init).
 
-Definition ts_calls (per : list nat) (percall : nat) (sizes : list nat) : list nat :=
-  used unit nat nat unit unit (ts_step per) (ts_pre percall) (fun k => k) tt (fun _ => tt) (mkCore 0%nat 0%nat [])
-       (map units sizes).
+Definition ts_calls (per : list nat) (init percall : nat) (initialised : bool) (sizes : list nat) : list nat :=
+  used unit (bool * nat) nat unit unit (ts_step per) (ts_pre init percall) snd tt (fun _ => tt)
+       (mkCore (initialised, 0%nat) 0%nat []) (map units sizes).
 
 (* a checkpoint loaded into a fresh sampler (constructed and initialised outside the compared stream) is not a call *)
 Fixpoint op_sizes (ops : list top) : list nat :=
@@ -69,12 +73,36 @@ Fixpoint op_sizes (ops : list top) : list nat :=
   end.
 
 Definition nl_eqb := list_eqb Nat.eqb.
+Definition nsum (l : list nat) : nat := fold_right Nat.add 0%nat l.
 
-(* observed: variates consumed by each sample / warmup call of the operation sequence, and the final position *)
-Definition check_draws (per : list nat) (ops : list top) (obs_calls : list nat) (obs_total : nat) : bool :=
-  nl_eqb (ts_calls per 0%nat (op_sizes ops)) obs_calls &&
-  Nat.eqb (fold_right Nat.add 0%nat (firstn (fold_right Nat.add 0%nat (op_sizes ops)) per)) obs_total.
+(* observed: variates consumed by each sample / warmup call of the operation sequence, and the final position.
+   Stateful interface: the sampler is constructed uninitialised, the first call initialises it *)
+Definition check_draws (per : list nat) (init : nat) (ops : list top) (obs_calls : list nat) (obs_total : nat) : bool :=
+  nl_eqb (ts_calls per init 0%nat false (op_sizes ops)) obs_calls &&
+  Nat.eqb ((match op_sizes ops with [] => 0 | _ => init end) + nsum (firstn (nsum (op_sizes ops)) per))%nat obs_total.
 
+(* Gibbs samplers: constructed ready to run (HybridGibbs initialises its block samplers in its constructor, which is not
+   one of the calls); sizes = transitions per call *)
 Definition check_draws_sizes (per : list nat) (sizes : list nat) (obs_calls : list nat) (obs_total : nat) : bool :=
-  nl_eqb (ts_calls per 0%nat sizes) obs_calls &&
-  Nat.eqb (fold_right Nat.add 0%nat (firstn (fold_right Nat.add 0%nat sizes) per)) obs_total.
+  nl_eqb (ts_calls per 0%nat 0%nat true sizes) obs_calls && Nat.eqb (nsum (firstn (nsum sizes) per)) obs_total.
+
+(* ------------------------------------------------------------------------------------------ *)
+(* the stream machine as a refinement of the machine of Model/C14_Chain.v (one random input per transition): a transition
+   first READS its random input from the stream at the current position (`rd`: the input, and how many variates it took
+   -- which may depend on the state: NUTS, CWMH, Gibbs sweeps) and then applies the chain-level transition `step0` *)
+Section Refines.
+Variables Cfg St Rnd Acc V : Type.
+Variable step0 : Cfg -> St -> Rnd -> St * Acc.
+Variable rd : Cfg -> St -> stream V -> Rnd * nat.
+
+Definition sstep (c : Cfg) (_ : unit) (s : St) (str : stream V) : St * nat :=
+  (fst (step0 c s (fst (rd c s str))), snd (rd c s str)).
+
+(* the random inputs n transitions read from the stream, started in state s at position pos *)
+Fixpoint inputs (c : Cfg) (str : stream V) (s : St) (pos n : nat) : list Rnd :=
+  match n with
+  | O => []
+  | S n' => let ra := rd c s (shift V str pos) in
+            fst ra :: inputs c str (fst (step0 c s (fst ra))) (pos + snd ra) n'
+  end.
+End Refines.
